@@ -172,6 +172,15 @@ class Dataset:
         self.descs.append(RecordDescriptor("c16/t1", [("string", "user"), ("varint", "n")] + base1))
         e_only = [f for f in self.descs[2].get_field_tuples() if not f[1].startswith("e")]
         self.descs.append(RecordDescriptor("c16/t2", e_only))
+        # record types that themselves have fields called ts / ts_description: in the first two positions (what an
+        # expanded record looks like), in later positions, only one of them, `ts` that is not a datetime
+        self.descs.append(RecordDescriptor("c16/ts0", [("datetime", "ts"), ("string", "ts_description"), ("varint", "uid"),
+                                                       ("datetime", "d1"), ("varint", "n"), ("datetime", "d2")]))
+        self.descs.append(RecordDescriptor("c16/ts1", [("varint", "uid"), ("string", "s"), ("datetime", "d1"),
+                                                       ("string", "ts_description"), ("datetime", "ts")]))
+        self.descs.append(RecordDescriptor("c16/ts2", [("varint", "uid"), ("string", "ts_description"), ("datetime", "d1")]))
+        self.descs.append(RecordDescriptor("c16/ts3", [("string", "ts"), ("varint", "uid"), ("datetime", "d2"), ("varint", "n")]))
+        self.descs.append(RecordDescriptor("c16/ts4", [("datetime", "ts"), ("string", "ts_description"), ("varint", "uid")]))
         self.sources = {}       # name -> dict(path, kind, views, exc)
         self.good = []
         uid = idx * 1000
@@ -190,6 +199,10 @@ class Dataset:
                     kw[n] = rnd.choice(S_POOL)
                 elif n == "user":
                     kw[n] = rnd.choice(["alice", "bob", "x"])
+                elif n == "ts_description":
+                    kw[n] = rnd.choice(["own text", "d1", ""])
+                elif n == "ts":
+                    kw[n] = pydt.datetime(1990 + rnd.randrange(10), 6, 7, 8, 9, 10, tzinfo=pydt.timezone.utc) if t == "datetime" else "own ts"
                 elif n in ("d1", "d2"):
                     kw[n] = rnd.choice([None, GEN_TIMES[0], pydt.datetime(2001, 2, 3, 4, 5, 6, tzinfo=pydt.timezone.utc)]) \
                         if n == "d2" else pydt.datetime(2010 + rnd.randrange(10), 1, 2, 3, 4, 5, tzinfo=pydt.timezone.utc)
@@ -379,11 +392,14 @@ def comma(s):
     return s.split(",") if s else []
 
 
-def ref_pipeline(ds, src_names, opt):
-    """-> (selected views E (after override+projection), written views (after list/multi), info)"""
-    views = []
-    for n in src_names:
-        views.extend(ds.sources[n]["views"])
+def ref_pipeline(ds, src_names, opt, views=None):
+    """-> (selected views E (after override+projection), written views (after list/multi), info)
+    views: the input records when they are not the sources' own (second pass over an earlier output)"""
+    if views is None:
+        views = []
+        for n in src_names:
+            views.extend(ds.sources[n]["views"])
+    views = list(views)
     if opt.get("sel") is not None:
         pred = SELECTORS[opt["sel"]][1]
         views = [v for v in views if pred(v)]
@@ -408,7 +424,7 @@ def ref_pipeline(ds, src_names, opt):
             # the harness's -E expressions only read reserved fields and produce one text field `tag`
             ft = ft + [("string", "tag")]
             vals = vals + ["%s|%s" % (meta["_source"], meta["_classification"])]
-        e = dict(name=v["name"], fields=ft, names=[n for _, n in ft], vals=vals, meta=meta, uid=uid_of(v), expanded=False)
+        e = dict(name=v["name"], fields=ft, names=[n for _, n in ft], vals=vals, meta=meta, uid=v.get("uid", uid_of(v)), expanded=False)
         if v.get("members") and not (fields or exclude or opt.get("expr")):
             # a grouped record passes unchanged; an override lands in the member that owns the reserved field
             ms = [dict(m) for m in v["members"]]
@@ -958,8 +974,8 @@ def coq_case(ds, src_names, opt, sel_views, written, res, writer, impl_ids):
 
 OUTS = ["w:records", "w:jsonl", "w:csvfile", "m:csv", "m:json", "m:jsonlines", "m:line", "m:text", "w:records.gz",
         "m:line-verbose", "w:line", "w:jsonfile", "w:stream-uri"]
-FIELDS = [None, "uid,n", "s,uid,zz", "uid,_source,n", "zz", "e0,uid,d1", "uid,user", "user,s,e1"]
-EXCLUDES = [None, "s", "n,e0", "_generated", "zz", "uid", "user", "n"]
+FIELDS = [None, "uid,n", "s,uid,zz", "uid,_source,n", "zz", "e0,uid,d1", "uid,user", "user,s,e1", "d1,uid,ts"]
+EXCLUDES = [None, "s", "n,e0", "_generated", "zz", "uid", "user", "n", "ts", "ts_description,d2"]
 EXPR = "tag = str(_source) + '|' + str(_classification)"
 ABORT_EXPR = "q = str(10 // (n - 3))"
 
@@ -1011,16 +1027,36 @@ def run_one(ctx, ds, src_names, opt, outdir, st, coq_cases, metas, rnd=None, sub
     sub: run the command line as a subprocess (no URI / selector capture)."""
     shutil.rmtree(outdir, ignore_errors=True)
     os.makedirs(outdir)
-    argv, writer = build_argv(ds, src_names, opt, outdir)
-    sel_views, written = ref_pipeline(ds, src_names, opt)
+    stage1_problem, stage1_argv = None, None
+    if opt.get("twice"):
+        # the output of `rdump <sources> --multi-timestamp` is the input of the run under test
+        stage1 = os.path.join(outdir, "stage1.records")
+        stage1_argv = [ds.sources[n]["path"] for n in src_names] + ["--multi-timestamp", "-w", stage1]
+        r1 = run_sub(stage1_argv) if sub else run_main(stage1_argv)
+        r1.pop("tw", None)
+        _, views1 = ref_pipeline(ds, src_names, dict(multi=True))
+        try:
+            compare_views(views1, read_back(stage1), st)
+        except Exception as e:  # noqa
+            stage1_problem = "first pass (rdump <sources> --multi-timestamp -w stage1.records): %s" % e
+        argv, writer = build_argv(ds, [], opt, outdir)
+        argv = [stage1] + argv
+        sel_views, written = ref_pipeline(ds, src_names, opt, views=views1)
+    else:
+        argv, writer = build_argv(ds, src_names, opt, outdir)
+        sel_views, written = ref_pipeline(ds, src_names, opt)
     res = run_sub(argv) if sub else run_main(argv)
     if sub and res["rc"] not in (0, "exit:2"):
         res["exc"] = RuntimeError("exit status %s: %s" % (res["rc"], res["stderr"].strip().splitlines()[-1:] or ""))
     meta = dict(subprocess=bool(sub), kind="rdump-case", dataset=ds.idx, dataset_seed=ds.seed, sources=list(src_names), opt=opt,
                 argv=[a.replace(str(ctx.work) if ctx is not None else "\0", "{W}") for a in argv],
                 source_kinds=[ds.sources[n]["kind"] for n in src_names])
+    if stage1_argv:
+        meta["stage1_argv"] = [a.replace(str(ctx.work) if ctx is not None else "\0", "{W}") for a in stage1_argv]
     problem = None
     try:
+        if stage1_problem:
+            raise Mismatch(stage1_problem)
         if opt.get("abort"):
             check_abort(ds, src_names, opt, res, outdir, st)
         elif opt.get("split") and not writer:
@@ -1046,7 +1082,7 @@ def run_one(ctx, ds, src_names, opt, outdir, st, coq_cases, metas, rnd=None, sub
         meta["stdout_head"] = res["stdout"][:400].decode("utf-8", "replace")
         meta["uri"] = res["uri"]
         return meta
-    if coq_cases is not None and not opt.get("abort"):
+    if coq_cases is not None and not opt.get("abort") and not opt.get("twice"):
         ids = impl_uids(opt, res, outdir, written)
         coq_cases.append(coq_case(ds, src_names, opt, sel_views, written, res, writer, ids))
         metas.append(meta)
@@ -1198,6 +1234,12 @@ def plan(ctx, ds, rnd):
             cases.append((srcs, dict(fields="uid,e0,e1,n", exclude="e1", out=out)))
             cases.append((srcs, dict(expr=EXPR, out=out)))
             cases.append((srcs, dict(expr=EXPR, exclude="s", skip=1, out=out)))
+    # --multi-timestamp over the output of --multi-timestamp (records whose first fields are ts / ts_description)
+    for out in ("w:records", "m:jsonlines", "m:csv"):
+        cases.append((good, dict(twice=True, multi=True, out=out)))
+        cases.append((["goodg"] + core_good[:1], dict(twice=True, multi=True, rsrc="SRC2", skip=1, count=7, out=out)))
+    cases.append((good, dict(twice=True, out="w:records")))
+    cases.append((core_good, dict(twice=True, multi=True, fields="uid,ts,d1,ts_description", out="m:jsonlines")))
     # overrides, expression, multi-timestamp, list
     for out in ("w:records", "m:jsonlines", "m:csv", "w:jsonl"):
         cases.append((good, dict(rsrc="SRC2", rcls="top", out=out)))
@@ -1251,7 +1293,7 @@ def multi_cases(ctx, ds, outdir, coq_cases, metas):
             pos += k
             impl = []
             for g in outs:
-                expanded = g["names"][:2] == ["ts", "ts_description"] and e["names"][:2] != ["ts", "ts_description"]
+                expanded = any(t == "datetime" for t, _ in e["fields"])
                 impl.append("(%s, %s, %s, %s)" % (clist([cstr(n) for n in g["names"]]),
                                                   cstr(str(_get(g, "ts_description")) if expanded else ""),
                                                   costr(g["meta"]["_source"]), costr(g["meta"]["_classification"])))
@@ -1335,6 +1377,10 @@ def subprocess_cases(ctx, st, report=True):
 def describe(m):
     if m.get("kind") == "rdump-source":
         return "source %s (%s): %s" % (m["file"], m["source_kind"], m["problem"])
+    if m.get("stage1_argv"):
+        return "%s stage1.records %s  [stage1.records written by: rdump <%s> --multi-timestamp -w stage1.records] -> %s" % (
+            "python -m flow.record.tools.rdump" if m.get("subprocess") else "rdump", " ".join(m["argv"][1:]),
+            ", ".join(m["source_kinds"]), m["problem"])
     return "%s %s  [sources: %s] -> %s" % ("python -m flow.record.tools.rdump" if m.get("subprocess") else "rdump",
                                           " ".join(a for a in m["argv"][len(m["sources"]):]), ", ".join(m["source_kinds"]), m["problem"])
 
